@@ -189,6 +189,25 @@ def rule_order(E, R):
                         clo = [closure_of(x["args"][0]) for x in ch if x["m"] == "map"]
                         ok = bool(clo) and clo[0] is not None and \
                             len(list(calls(clo[0]["body"], r"list_matcher::ListDefinition::new_matcher$"))) == 1
+        if not ok:
+            # the same with an explicit loop: a vector filled, unconditionally, with one new_matcher() per element of scheme.lists()
+            Sn = sem.Sem(E, h, inline=False)
+            for s_ in exprs(h["body"], "Struct"):
+                for f_ in s_["fields"]:
+                    if f_["name"] != "list_matchers":
+                        continue
+                    vb = sem.provenance(Sn, f_["e"], Sn.root)[0]
+                    pushes = [x for x in Sn.sites() if x.node.get("k") == "MethodCall" and x.node["m"] == "push" and vb is not None and
+                              sem.root_local(Sn, x.node["recv"], x.frame) is vb]
+                    for ls, pat, it in sem.for_loops(Sn):
+                        b_, _, _, ms = sem.provenance(Sn, it, ls.frame)
+                        whole = sem.param_index(Sn, it, ls.frame) == 0 and ms[:1] == ["lists"] and \
+                            chain_verdict([{"m": m_} for m_ in ms[1:]], terminal_ok=()) == "ok"
+                        inside = [x for x in pushes if any(y is x.node for y in walk(ls.node))]
+                        if whole and len(pushes) == 1 and len(inside) == 1 and not inside[0].pc_has_conditions() and \
+                                len(list(calls(inside[0].node["args"][0], r"list_matcher::ListDefinition::new_matcher$"))) == 1 and \
+                                not [b2 for b2 in exprs(ls.node, ("Break", "Continue")) if not b2.get("x")]:
+                            ok = True
         R.check(ok, rule, fn, "one matcher per registered list, in registration order",
                 "expected scheme.lists().map(|l| l.definition().new_matcher()).collect()", h["span"])
     # accessors index by list.index()
